@@ -213,6 +213,9 @@ func objects(cs *histCase, caseNo int, v0 interface{}) []object {
 		}
 		return int(n)
 	}
+	if cs.Made.Kind != "data" && cs.Made.Via != "direct" {
+		rp.Bug("life of a handler object: errors behind another value (via %q) are rows of the one-request table", cs.Made.Via)
+	}
 	switch cs.Made.Kind {
 	case "data":
 		for k := range carriers() {
@@ -270,6 +273,14 @@ func objects(cs *histCase, caseNo int, v0 interface{}) []object {
 			func(ctx ol.Context, _ carrier, w http.ResponseWriter, r *http.Request) { oh.WriteError(ctx, w, r, e1) })
 		add("Error(*HTTPStatus)", nil, func(ctx ol.Context, _ carrier) http.Handler { return oh.Error(ctx, e2) },
 			func(ctx ol.Context, _ carrier, w http.ResponseWriter, r *http.Request) { oh.WriteError(ctx, w, r, e2) })
+	case "appErrorWithStatus":
+		for _, e := range errValues(&cs.Made) {
+			e := e
+			add("Error("+e.name+")", nil, func(ctx ol.Context, _ carrier) http.Handler { return oh.Error(ctx, e.err) },
+				func(ctx ol.Context, _ carrier, w http.ResponseWriter, r *http.Request) {
+					oh.WriteError(ctx, w, r, e.err)
+				})
+		}
 	default:
 		rp.Bug("unknown kind %q", cs.Made.Kind)
 	}
